@@ -385,7 +385,7 @@ def corpus_texts(pvl):
 def shard(i, n, tier, seed, rec, hb):
     pvl = common.import_pvl()
     holder = {}
-    per = 160 if tier == "quick" else 5000
+    per = 160 if tier == "quick" else 3500
     for reader in common.rotated(gt.READERS, i):
         for j in range(i, per, n):
             hb.beat()
